@@ -38,6 +38,8 @@ def gen_stallwatch(r, tier):
         toks = [f"kind={kind}", "ns=1", f"win={n}", f"map={pmap}", "loop=direct m=-", f"resp={resp}", "pwm=0", "origmode=2", "origpwm=0"]
         if kind == "hwmon":
             toks += [f"minp={lo}", f"maxp={hi}", f"startp={lo}", f"avg={fx(avg0)}", "mode=2"]
+            if r.chance(0.3):
+                toks.append(f"cmin={lo}")   # the minimum is CONFIGURED (seed C10k: the raise went into a setter that respects the configuration)
         else:
             toks += [f"rint={int(avg0)}"]
             lo, hi = 0, 255
